@@ -229,22 +229,35 @@ pub fn run_world_at(run: &Run, net: NetID, start: Option<u64>, ages: &[u64], dif
 fn after_speed_record(run: &Run, eng: &Engine, record: &Node, coins: &[(CoinID, u128, u64)], difficulties: &[(u32, bool)], thorough: bool, other_header: &melstructs::Header) {
     // the speed demonstrated earlier in the block stays recorded when further transactions (without mints) join the same block:
     // the engine's batch oracle compares the header's DOSC speed with max(previous, demonstrated) after every accepted batch
-    if let Some((c, v, _)) = coins.first() {
+    // (this branch is followed behind a reported difference too: a record lost here is what lets a later block mint too much,
+    // and the model keeps the record it saw)
+    let mut eng_on = Engine::new(run);
+    eng_on.continue_after_mismatch = true;
+    let mut starts: Vec<Node> = vec![];
+    if let Some((c, v, _)) = coins.last() {
         let later = tx_t(TxKind::Normal, vec![*c], vec![out_t(*v, Denom::Mel)], 0, vec![0x18]);
-        match eng.step(record, &Action::Batch { label: "transfer later in the block of the record mint".into(), txs: vec![later], expect_ok: true }) {
+        match eng_on.step(record, &Action::Batch { label: "transfer later in the block of the record mint".into(), txs: vec![later], expect_ok: true }) {
             StepOut::Next(n) => {
                 run.outcome("later-call-in-record-block:accepted");
-                if let StepOut::Next(_) = eng.step(&n, &Action::Batch { label: "empty batch".into(), txs: vec![], expect_ok: true }) {
+                let mut cur = n.clone();
+                if let StepOut::Next(e) = eng_on.step(&n, &Action::Batch { label: "empty batch".into(), txs: vec![], expect_ok: true }) {
                     run.outcome("empty-batch-in-record-block:accepted");
+                    cur = e;
+                }
+                if let StepOut::Next(s) = eng_on.step(&cur, &Action::Seal(None)) {
+                    starts.push(s);
                 }
             }
             _ => run.outcome("later-call-in-record-block:not-accepted"),
         }
     }
-    let sealed = match eng.step(record, &Action::Seal(None)) {
-        StepOut::Next(x) => x,
+    match eng.step(record, &Action::Seal(None)) {
+        StepOut::Next(x) => starts.insert(0, x),
         _ => return,
     };
+    let coins = &coins[..coins.len().saturating_sub(1).max(1)];
+    for (si, sealed) in starts.iter().enumerate() {
+    let eng = if si == 0 { eng } else { &eng_on };
     for extra in [0u64, 1] {
         let s = match advance(eng, sealed.clone(), extra) {
             Some(x) => x,
@@ -264,6 +277,7 @@ fn after_speed_record(run: &Run, eng: &Engine, record: &Node, coins: &[(CoinID, 
                 StepOut::Pruned => run.outcome("mint-after-record:engine-reported"),
             }
         });
+    }
     }
 }
 
